@@ -1232,3 +1232,137 @@ Theorem pad3_spec {A} (z : A) (p : list A) : (1 <= length p <= 3)%nat ->
 Proof.
   intros H. destruct p as [|a [|b [|c [|d p]]]]; simpl in H; try lia; simpl; repeat split; repeat constructor.
 Qed.
+
+(* ------------------------------------------------------------------------------------------------ *)
+(* C18, codec layer: a truncated array payload is never read as the full array                        *)
+(* ------------------------------------------------------------------------------------------------ *)
+Definition proper_prefix (p s : bytes) : Prop := exists r, r <> [] /\ s = p ++ r.
+
+Lemma prefix_cons {A} (p r : list A) a l : p ++ r = a :: l -> (p = [] /\ r = a :: l) \/ (exists p', p = a :: p' /\ p' ++ r = l).
+Proof.
+  destruct p as [|b p]; simpl; intros H; [left; auto|]. inversion H; subst. right. exists p. auto.
+Qed.
+
+Lemma dec_end_1 a p : b64dec_go [a] p [] = None. Proof. reflexivity. Qed.
+Lemma dec_end_2 a b p : b64dec_go [a; b] p [] = None. Proof. reflexivity. Qed.
+Lemma dec_end_3 a b c p : b64dec_go [a; b; c] p [] = None. Proof. reflexivity. Qed.
+
+Lemma dec_pad_2_end a b : b64dec_go [a; b] 0 [pad] = None.
+Proof. reflexivity. Qed.
+
+(* decoding a proper prefix of an encoded string: an error, or the bytes of the complete quads only *)
+Lemma b64dec_proper_prefix : forall z, wf z -> forall p r, b64enc z = p ++ r -> r <> [] ->
+  b64dec p = None \/ exists k, b64dec p = Some (takeN (3 * k) z) /\ 3 * k < lenN z.
+Proof.
+  unfold b64dec. intros z. induction z as [|x|x y|x y z' rest IH] using list_ind3; intros Hwf p r He Hr.
+  - simpl in He. symmetry in He. apply app_eq_nil in He. destruct He; congruence.
+  - (* one byte: a1 a2 = = *)
+    inversion Hwf as [|? ? Hx _]; subst. cbn [b64enc] in He. symmetry in He.
+    apply prefix_cons in He. destruct He as [[-> _]|[p1 [-> He]]].
+    { right. exists 0. split; [reflexivity|rewrite lenN_cons; lia]. }
+    left. apply prefix_cons in He. destruct He as [[-> _]|[p2 [-> He]]].
+    { rewrite dec_step_0 by lia. reflexivity. }
+    apply prefix_cons in He. destruct He as [[-> _]|[p3 [-> He]]].
+    { rewrite dec_step_0, dec_step_1 by lia. reflexivity. }
+    apply prefix_cons in He. destruct He as [[-> _]|[p4 [-> He]]].
+    { rewrite dec_step_0, dec_step_1 by lia. reflexivity. }
+    apply app_eq_nil in He. destruct He; congruence.
+  - (* two bytes: a1 a2 a3 = *)
+    inversion Hwf as [|? ? Hx Hr2]; subst. inversion Hr2 as [|? ? Hy _]; subst.
+    cbn [b64enc] in He. symmetry in He.
+    apply prefix_cons in He. destruct He as [[-> _]|[p1 [-> He]]].
+    { right. exists 0. split; [reflexivity|rewrite !lenN_cons; lia]. }
+    left. apply prefix_cons in He. destruct He as [[-> _]|[p2 [-> He]]].
+    { rewrite dec_step_0 by lia. reflexivity. }
+    apply prefix_cons in He. destruct He as [[-> _]|[p3 [-> He]]].
+    { rewrite dec_step_0, dec_step_1 by lia. reflexivity. }
+    apply prefix_cons in He. destruct He as [[-> _]|[p4 [-> He]]].
+    { rewrite dec_step_0, dec_step_1, dec_step_2 by lia. reflexivity. }
+    apply app_eq_nil in He. destruct He; congruence.
+  - (* a full group followed by the rest *)
+    inversion Hwf as [|? ? Hx Hr2]; subst. inversion Hr2 as [|? ? Hy Hr3]; subst. inversion Hr3 as [|? ? Hz Hrest]; subst.
+    cbn [b64enc] in He. symmetry in He.
+    apply prefix_cons in He. destruct He as [[-> _]|[p1 [-> He]]].
+    { right. exists 0. split; [reflexivity|rewrite !lenN_cons; lia]. }
+    apply prefix_cons in He. destruct He as [[-> _]|[p2 [-> He]]].
+    { left. rewrite dec_step_0 by lia. reflexivity. }
+    apply prefix_cons in He. destruct He as [[-> _]|[p3 [-> He]]].
+    { left. rewrite dec_step_0, dec_step_1 by lia. reflexivity. }
+    apply prefix_cons in He. destruct He as [[-> _]|[p4 [-> He]]].
+    { left. rewrite dec_step_0, dec_step_1, dec_step_2 by lia. reflexivity. }
+    rewrite dec_quad by assumption. symmetry in He.
+    destruct (IH Hrest p4 r He Hr) as [Hn|[k [Hk Hlt]]].
+    + left. rewrite Hn. reflexivity.
+    + right. exists (k + 1). rewrite Hk. cbn [option_map]. split.
+      * f_equal. rewrite !takeN_firstn. replace (N.to_nat (3 * (k + 1))) with (S (S (S (N.to_nat (3 * k))))) by lia.
+        reflexivity.
+      * rewrite !lenN_cons. lia.
+Qed.
+
+Lemma lenN_takeN_le {A} (l : list A) n : lenN (takeN n l) <= lenN l.
+Proof. rewrite takeN_length. lia. Qed.
+
+Definition truncated_ok (x : bytes) (res : option bytes) : Prop :=
+  match res with None => True | Some y => lenN y < lenN x end.
+
+(* uncompressed arrays, raw or base64, both header placements: for every proper prefix of the stored byte string the
+   reader fails or returns fewer bytes than the header declares -- never the full array *)
+Theorem truncated_payload_rejected (compress : bytes -> bytes) bo h e hsep x p :
+  wf x -> lenN x < hbound h ->
+  proper_prefix p (enc_array compress bo h None e hsep x) ->
+  truncated_ok x (read_uncompressed bo h e p).
+Proof.
+  intros Hwf Hx [r [Hr Hp]]. unfold enc_array, enc_segments in Hp.
+  set (hd := header_bytes bo h [lenN x]) in *.
+  assert (Lh : lenN hd = hsize h) by apply header1_len.
+  assert (Wh : wf hd) by apply wf_header_bytes.
+  assert (Raw_case : forall q s, hd ++ x = q ++ s -> s <> [] -> truncated_ok x (read_uncompressed bo h Raw q)).
+  { intros q s Hq Hs. unfold read_uncompressed. cbn [decode encode]. cbv zeta.
+    assert (Lq : lenN q + lenN s = hsize h + lenN x) by (rewrite <- Lh, <- !lenN_app, Hq; reflexivity).
+    assert (Ls : 0 < lenN s) by (destruct s; [congruence|rewrite lenN_cons; lia]).
+    destruct (N.ltb_spec (lenN q) (hsize h)) as [C|C]; [exact I|].
+    destruct (N.eqb_spec (lenN q) (hsize h)) as [C2|C2].
+    - rewrite dropN_all by lia. cbn [takeN]. unfold truncated_ok. rewrite lenN_nil. lia.
+    - unfold truncated_ok. pose proof (lenN_takeN_le (dropN (hsize h) q) (bytes_to_int bo (takeN (hsize h) q))) as L1.
+      rewrite dropN_length in L1. lia. }
+  destruct e.
+  - (* raw *) apply (Raw_case p r); [exact Hp|exact Hr].
+  - destruct hsep.
+    + (* header and data encoded separately *)
+      apply app_eq_app in Hp. destruct Hp as [l [[H1 H2]|[H1 H2]]].
+      * (* the cut is inside the header string *)
+        destruct l as [|c l].
+        -- (* p is exactly the header string *)
+           rewrite app_nil_r in H1. subst p. cbn [app] in H2.
+           unfold read_uncompressed. cbn [decode encode]. cbv zeta. rewrite b64_roundtrip by exact Wh.
+           rewrite Lh, N.ltb_irrefl, N.eqb_refl. rewrite dropN_all by lia.
+           unfold b64dec. cbn [b64dec_go takeN]. unfold truncated_ok. rewrite lenN_nil.
+           destruct x as [|a x]; [simpl in H2; congruence|rewrite lenN_cons; lia].
+        -- assert (Hl : c :: l <> []) by discriminate.
+           destruct (b64dec_proper_prefix hd Wh p (c :: l) H1 Hl) as [Hn|[k [Hk Hlt]]].
+           ++ unfold read_uncompressed. cbn [decode]. rewrite Hn. exact I.
+           ++ unfold read_uncompressed. cbn [decode]. rewrite Hk. cbv zeta.
+              assert (Lt : lenN (takeN (3 * k) hd) = 3 * k) by (rewrite takeN_length; lia).
+              rewrite Lt. destruct (N.ltb_spec (3 * k) (hsize h)) as [_|C]; [exact I|lia].
+      * (* the cut is inside the data string (or right at its beginning) *)
+        subst p. unfold read_uncompressed. cbn [decode encode]. cbv zeta.
+        rewrite (b64_concat_prefix_padded hd l Wh) by (rewrite Lh; apply hsize_mod3).
+        rewrite Lh, N.ltb_irrefl, N.eqb_refl. rewrite dropN_app_len.
+        destruct (b64dec_proper_prefix x Hwf l r H2 Hr) as [Hn|[k [Hk Hlt]]].
+        -- rewrite Hn. exact I.
+        -- rewrite Hk. unfold truncated_ok. pose proof (lenN_takeN_le (takeN (3 * k) x) (bytes_to_int bo (takeN (hsize h) hd))) as L1.
+           rewrite takeN_length in L1. lia.
+    + (* one base64 string for header ++ data *)
+      assert (Whx : wf (hd ++ x)) by (apply wf_app; split; assumption).
+      destruct (b64dec_proper_prefix (hd ++ x) Whx p r Hp Hr) as [Hn|[k [Hk Hlt]]].
+      * unfold read_uncompressed. cbn [decode]. rewrite Hn. exact I.
+      * unfold read_uncompressed. cbn [decode]. rewrite Hk. cbv zeta.
+        rewrite lenN_app, Lh in Hlt.
+        assert (Lt : lenN (takeN (3 * k) (hd ++ x)) = 3 * k) by (rewrite takeN_length, lenN_app; lia).
+        rewrite Lt. destruct (N.ltb_spec (3 * k) (hsize h)) as [_|C]; [exact I|].
+        destruct (N.eqb_spec (3 * k) (hsize h)) as [C2|C2].
+        -- exfalso. apply (hsize_mod3 h). rewrite <- C2. rewrite N.mul_comm. apply N.mod_mul. discriminate.
+        -- unfold truncated_ok. pose proof (lenN_takeN_le (dropN (hsize h) (takeN (3 * k) (hd ++ x)))
+                                 (bytes_to_int bo (takeN (hsize h) (takeN (3 * k) (hd ++ x))))) as L1.
+           rewrite dropN_length, Lt in L1. lia.
+Qed.
